@@ -197,10 +197,39 @@ class BuiltinMixin:
     return VList([VTuple([VInt(i), x]) for i, x in enumerate(self.iter_concrete(a[0]))])
 
   def bi_map(self, it, a, k):
-    """map over a concrete-length collection, evaluated eagerly (the mapped callables are pure here)."""
+    """map over a concrete-length collection is evaluated eagerly (the mapped callables are pure here); map over a
+    ghost iterator is lazy: element j is f(src[j]) for the uninterpreted (deterministic, possibly failing) f, an
+    element fails when the source fails there or f raises on it; a map object can be resumed after a failure (A6)."""
     if len(a) != 2:
       raise Unsupported('map with several iterables')
+    if isinstance(a[1], VIter):
+      f, src = a
+      if src.wrap_fn is not None or src.src.kind not in ('obj',):
+        raise Unsupported('lazy map over a non-opaque iterator')
+      ft = self.fn_symbol(f)
+      ap = opaque_fn(1)
+      j = z3.Int(self.path.fresh_name('j'))
+      elem = z3.Select(src.src.arr, j)
+      bad = fn_raises(ft, elem)
+      if src.fails is not None:
+        bad = z3.Or(z3.Select(src.fails, j), bad)
+      m = VIter(VSeq(z3.Lambda([j], ap(ft, elem)), src.src.n, 'obj'), src.pos, z3.Lambda([j], bad), True, src.ret, tag='map')
+      m.dead = src.dead
+      m.err = 'ValueError'
+      return m
     return VList([self.call_value(a[0], [x], {}) for x in self.iter_concrete(a[1])])
+
+  def fn_symbol(self, f):
+    """The Obj term that names a callable in uninterpreted applications."""
+    if isinstance(f, VOpaque):
+      return f.t
+    if isinstance(f, VFn) and f.node is not None and f.bound is not None:
+      # a bound method, abstracted to a deterministic function of (receiver, argument) that may fail
+      base = z3.Function('method_of', Obj, Obj, Obj)
+      return base(self.str_obj('method:' + f.name), self.to_obj(f.bound))
+    if isinstance(f, VFn) and f.node is not None:
+      return self.str_obj('function:' + f.name)
+    raise Unsupported(f'{type(f).__name__} as a mapped function')
 
   def bi_zip(self, it, a, k):
     if a and all(isinstance(x, (VIter, VSeq, VMList)) for x in a):
@@ -453,6 +482,18 @@ class BuiltinMixin:
 
 
 _SLICE_OF = z3.Function('slice_of', Obj, z3.IntSort(), z3.IntSort(), Obj)
+fn_raises = z3.Function('fn_raises', Obj, Obj, z3.BoolSort())     # ghost: the callable raises on this argument
+
+
+def opaque_fn(arity):
+  from .calls import opaque_call
+  fn = opaque_call.get(arity)
+  if fn is None:
+    fn = z3.Function(f'apply{arity}', *([Obj] * (arity + 2)))
+    opaque_call[arity] = fn
+  return fn
+
+
 callable_fn = z3.Function('is_callable', Obj, z3.BoolSort())     # ghost: an opaque object can be called
 nparts_fn = z3.Function('nparts', Obj, z3.IntSort())            # ghost: number of iterators chained into an opaque iterator
 part_fn = z3.Function('part_of', Obj, z3.IntSort(), Obj)        # ghost: its j-th part
